@@ -737,6 +737,39 @@ func runC05(r *vk.Run) {
 			}
 			c.Count("layouts_checked", 1)
 		}
+		if c.Idx%10 == 3 {
+			// long query texts (a leading comment block, indentation): the text is read in pieces, and where a
+			// piece ends is no token boundary. The padding is grown byte by byte so that the ends of the 1 KiB,
+			// 2 KiB and 4 KiB pieces fall on every byte of the query in turn
+			text := layout(rng, g.T, 1)
+			if len(text) < 1500 {
+				for _, boundary := range []int{1024, 2048, 4096} {
+					for pad := boundary - len(text) - 2; pad <= boundary+1; pad++ {
+						if pad < 0 {
+							continue
+						}
+						var padded string
+						switch pad % 3 {
+						case 0:
+							padded = strings.Repeat(" ", pad) + text
+						case 1:
+							padded = "#" + strings.Repeat("-", pad-1)[:max(pad-2, 0)] + "\n" + text
+							if pad < 2 {
+								padded = strings.Repeat("\n", pad) + text
+							}
+						default:
+							padded = strings.Repeat(" \n", pad/2) + strings.Repeat(" ", pad%2) + text
+						}
+						got, err := parse(c, padded)
+						if err != nil || got != g.W {
+							c.Fail("", fmt.Sprintf("query behind %d bytes of blanks / comment (total %d bytes) is rejected or parsed into another structure: %q: err=%v", pad, len(padded), text, err), map[string]any{"query": text, "padding_bytes": pad, "expected_tree": g.W, "parsed_tree": got})
+							return
+						}
+						c.Count("padded_layouts_checked", 1)
+					}
+				}
+			}
+		}
 		c.Count("kind:"+kind, 1)
 		for _, n := range []string{"lf(", "json(", "logfmt(", "regexp(", "pattern(", "unpack", "line_format(", "decolorize", "filter(", "label_format(", "drop(", "keep(", "distinct(", "range(", "vecagg(", "bin(", "label_replace(", "vector(", "lit(", "unwrap(", "offset=none", "by[", "without["} {
 			c.Count("node:"+n, strings.Count(g.W, n))
@@ -1029,6 +1062,7 @@ func runC05(r *vk.Run) {
 			c.Sample("negative", map[string]any{"examples": []string{bad["grouping-on-sort"], bad["duplicate-label-format"], bad["scalar-left-logical"]}})
 		}
 	})
+	r.Require("padded_layouts_checked", 20000)
 	r.Require("layouts_checked", 9000)
 	r.Require("corruptions_rejected", 20000)
 	r.Require("distinct:corruption_operators", 70)
